@@ -4,16 +4,27 @@
     xmlschema/validators/identities.py   IdentityCounter / KeyrefCounter (385-418),
                                          FieldValueSelector.get_value (461-544)
     xmlschema/validators/elements.py     XsdElement.raw_decode: counters created / reset on entry
-                                         (637-641), disabled + keyrefs checked on exit (853-864),
-                                         collect_key_fields (868-918)
+                                         (637-641), disabled + keyrefs checked on exit (869-887),
+                                         collect_key_fields (891-946)
     xmlschema/validators/simple_types.py XsdAtomicBuiltin.raw_decode, ID / IDREF bookkeeping (763-783)
-    xmlschema/validators/schemas.py      _validate_references (1393-1405)
+    xmlschema/validators/schemas.py      _validate_references (1401-1414)
 
   No Mathlib import: this file is linked into the native driver `drv_c08`.
 
   Layers (DESIGN.md §0):
-    M  `step` / `run` / `Node.events`     faithful port of the *pinned* algorithm (one shared map
-                                          constraint ↦ counter, reset on scope entry, `enabled` flag)
+    M  `step` / `run` / `Node.events`     faithful port of the algorithm of the CURRENT tree (one shared
+                                          map constraint ↦ counter, reset on scope entry, `enabled`
+                                          flag), i.e. including the `fix:` commits
+                                            3a2eb1a  keyref: a node lacking a field is skipped
+                                            cc593f3  unique: a node lacking some (not all) fields is skipped
+                                            b32146f  keyref checked at the end of its scope while the
+                                                     referenced constraint has no counter: an empty
+                                                     disabled counter is installed (was: KeyError)
+                                          Only the fully-loaded walk (`context.max_depth is None`) is
+                                          modelled.  The lazy walk defers the keyref check to
+                                          `XMLSchemaBase._validate_references` (schemas.py:1410-1414),
+                                          which still indexes `identities[self.refer]` directly: b32146f
+                                          did NOT touch that path and nothing here speaks about it.
     S  `UniqueOk` / `KeyOk` / `KeyrefOk`  the XSD reading (qualified node sets), Prop-valued
     O  `specClauses`                      executable evaluation of S on a document, scope by scope
 -/
@@ -245,7 +256,7 @@ inductive RowErr where
   | dup | missing (field : Nat) | multi (field : Nat)
   deriving DecidableEq, Repr, Inhabited
 
-/-- what one selected node does to a counter (elements.py:905-918 + `increase`):
+/-- what one selected node does to a counter (elements.py:930-946 + `increase`):
     new table and the error raised, if any -/
 def offer (kind : Kind) (table : List Tuple) (row : List (FRes Val)) : List Tuple × Option RowErr :=
   match tupleOf kind row 0 with
@@ -253,7 +264,9 @@ def offer (kind : Kind) (table : List Tuple) (row : List (FRes Val)) : List Tupl
   | .error (true, i) => (table, some (.multi i))
   | .ok t =>
     if kind = .keyref then
-      (if t.any Option.isNone then table else t :: table, none)   -- not in the qualified node set
+      (if t.any Option.isNone then table else t :: table, none)   -- 937-938: not in the qualified node set
+    else if kind = .unique && t.any Option.isNone && t.any Option.isSome then
+      (table, none)                                               -- 939-941: idem, unique (cc593f3)
     else if t.any Option.isSome then
       (t :: table, if table.count t = 1 then some .dup else none) -- counter[fields] == 2 after += 1
     else (table, none)
@@ -272,14 +285,16 @@ structure Env where
   sel : Nat → Nat → Nat → Bool          -- constraint, scope node, node: node ∈ counter.elements
   fields : Nat → Nat → List (FRes Val)  -- constraint, node: the field results
 
+/-- No exception escapes the fully-loaded walk any more: `context.identities[identity]` at the end of
+    an element (872) finds the counter installed at its start (637-641), and `identities[self.refer]`
+    (identities.py:408) finds the one installed by 876-882.  Hence no crash component. -/
 structure St where
   ctrs : Nat → Option Ctr
   errs : List Err                       -- newest first
-  crash : Bool                          -- KeyError escaped (identities.py:408 on a missing counter)
   nested : List Nat                     -- constraints whose *enabled* counter was reset by a nested scope
   deriving Inhabited
 
-def St.init : St := ⟨fun _ => none, [], false, []⟩
+def St.init : St := ⟨fun _ => none, [], []⟩
 
 def St.put (st : St) (c : Nat) (k : Ctr) : St :=
   { st with ctrs := fun x => if x = c then some k else st.ctrs x }
@@ -293,7 +308,7 @@ def enterOne (n : Nat) (st : St) (c : Nat) : St :=
   | some k => if k.enabled then { st' with nested := c :: st'.nested } else st'
   | none => st'
 
-/-- elements.py:880-918 for one identity of `selected_by` -/
+/-- elements.py:903-946 for one identity of `selected_by` -/
 def collectOne (env : Env) (n : Nat) (st : St) (c : Nat) : St :=
   match st.ctrs c with
   | none => st
@@ -315,7 +330,21 @@ def keyrefErrs (c scope : Nat) (own refer : List Tuple) : List Err :=
   ((own.reverse.eraseDups).filter (fun v => !refer.contains v)).map
     fun v => .notfound c scope (own.count v)
 
-/-- elements.py:853-861 for one identity of the element being left -/
+/-- elements.py:876-882 (b32146f): the referenced constraint has no counter in the context (its
+    element did not occur so far): an empty, disabled counter bound to the keyref's scope element
+    is installed — and stays in the context afterwards -/
+def ensureRefer (n : Nat) (st : St) (r : Nat) : St :=
+  match st.ctrs r with
+  | some _ => st
+  | none => st.put r ⟨n, false, []⟩
+
+/-- the table `identities[self.refer].counter` read by `KeyrefCounter.iter_errors` -/
+def referTableIn (st : St) (r : Nat) : List Tuple :=
+  match st.ctrs r with
+  | some rk => rk.table
+  | none => []
+
+/-- elements.py:871-885 for one identity of the element being left -/
 def leaveOne (env : Env) (n : Nat) (st : St) (c : Nat) : St :=
   match st.ctrs c with
   | none => st
@@ -323,10 +352,10 @@ def leaveOne (env : Env) (n : Nat) (st : St) (c : Nat) : St :=
     let st := st.put c { k with enabled := false }
     if env.kind c = .keyref then
       match env.refer c with
-      | none => st
-      | some r => match st.ctrs r with
-        | none => { st with crash := true }
-        | some rk => { st with errs := (keyrefErrs c n k.table rk.table).reverse ++ st.errs }
+      | none => st                       -- `self.refer is None`: unbuilt keyref, nothing is checked
+      | some r =>
+        let st := ensureRefer n st r
+        { st with errs := (keyrefErrs c n k.table (referTableIn st r)).reverse ++ st.errs }
     else st
 
 inductive Ev where
@@ -336,11 +365,10 @@ inductive Ev where
   deriving Repr, Inhabited
 
 def step (env : Env) (st : St) (ev : Ev) : St :=
-  if st.crash then st else
   match ev with
   | .enter n cs => cs.foldl (enterOne n) st
   | .collect n cs => cs.foldl (collectOne env n) st
-  | .leave n cs => cs.foldl (fun s c => if s.crash then s else leaveOne env n s c) st
+  | .leave n cs => cs.foldl (leaveOne env n) st
 
 def run (env : Env) (evs : List Ev) : St := evs.foldl (step env) St.init
 
@@ -493,10 +521,11 @@ def specClauses (sch : Schema) (root : Node) : List (Nat × Clause) :=
       | none => []
       | some k => (scopeClauses sch k s).map fun cl => (c, cl)
 
-/-! ### guards: the regions in which the pinned algorithm is known to deviate -/
+/-! ### guards: the regions in which the current algorithm is known to deviate -/
 
 /-- a keyref scope whose referenced constraint does not have exactly one scope instance inside it
-    (0 → KeyError, ≥ 2 → only the last instance's table is consulted) -/
+    (0 → the table of an instance *outside* the scope is consulted if one was met before, the
+    empty table otherwise; ≥ 2 → only the last instance's table is consulted) -/
 def referSpread (sch : Schema) (root : Node) : List (Nat × Nat) :=
   root.dos.flatMap fun s =>
     (sch.consOf s.decl).filterMap fun c => match sch.con? c with
@@ -518,15 +547,6 @@ def conflict (sch : Schema) (root : Node) : Bool :=
           (qualified sch.ns k s).any fun t => (tabs.filter (·.contains t)).length ≥ 2
         | _, _ => false
       | none => false
-
-/-- a unique scope in which a selected node has some but not all fields -/
-def partialUnique (sch : Schema) (root : Node) : List Nat :=
-  (root.dos.flatMap fun s =>
-    (sch.consOf s.decl).filter fun c => match sch.con? c with
-      | some k => k.kind == .unique &&
-        (rowsOf sch k s).any fun r => (complete? r).isNone && r.any (fun x => x != .absent)
-          && !r.contains .multi
-      | none => false).eraseDups
 
 /-- a keyref tuple that matches the referenced table only when strings and QNames are conflated -/
 def strQName (sch : Schema) (root : Node) : List Nat :=
